@@ -72,7 +72,14 @@ class Entity(ABC):
 
         map_attributes(self, **kwargs)
 
-        self.workspace.register(self)
+        try:
+            self.workspace.register(self)
+        except RuntimeError:
+            # refused (identifier in use): do not stay behind in the parent's children
+            children = getattr(self._parent, "children", None)
+            if isinstance(children, list) and self in children:
+                children.remove(self)
+            raise
 
     @property
     def allow_delete(self) -> bool:
